@@ -126,7 +126,7 @@ func report(prog *Program, cs *ContractSet, res *CheckResult, verifDir string, s
 	if len(res.Obligations) == 0 {
 		res.Broken = append(res.Broken, "zero obligations generated")
 	}
-	replayDir := filepath.Join(verifDir, "replays", res.Property)
+	replayDir := filepath.Join(envOr("GVC_REPLAY_DIR", filepath.Join(verifDir, "replays")), res.Property)
 	for _, o := range res.Failed {
 		if kf := prog.known.match(res.Property, o.Name); kf != nil {
 			msg := fmt.Sprintf("KNOWN-FINDING: property=%s %s — %s", res.Property, o.Name, kf.What)
@@ -190,6 +190,7 @@ func cmdVC(args []string) int {
 	repo := fs.String("repo", envOr("GVC_REPO", "/repo"), "repository root")
 	verifDir := fs.String("verif", envOr("GVC_VERIF", "/verif"), "verification directory")
 	dump := fs.String("dump", "", "write the query of the obligation with this name to stdout")
+	feas := fs.Bool("feas", false, "check that the context of every obligation is satisfiable (quantifier-free weakening)")
 	timeout := fs.Int("t", 10, "solver timeout (s)")
 	fs.Parse(args)
 	initSolvers(runtime.NumCPU(), "")
@@ -206,6 +207,15 @@ func cmdVC(args []string) int {
 		fmt.Printf("  %-8s %-70s %-10s %.2fs  %s:%d\n", o.Result.Status, o.Name, o.Result.Solver, o.Result.Seconds, relPath(o.Pos.Filename), o.Pos.Line)
 		if o.Result.Status != "unsat" {
 			fmt.Printf("           %s [%s]\n", o.Desc, o.Src)
+		}
+		if *feas && o.exec != nil {
+			oo := *o
+			oo.Goal = "false"
+			q := o.exec.cexQuery(&oo) + "(check-sat)\n"
+			r := solve(q, 10, false, false)
+			if r.Status == "unsat" {
+				fmt.Printf("           INFEASIBLE CONTEXT (weakened context is unsat) for %s\n", o.Name)
+			}
 		}
 		if *dump != "" && o.Name == *dump {
 			os.WriteFile("/tmp/gvc_dump.smt2", []byte(o.exec.query(o, true)), 0o644)
